@@ -14,6 +14,7 @@ counters = collections.Counter()
 _installed = False
 _orig = {}
 exec_events = []
+COUNT_INVOCATIONS = [False]  # wrap compiled callables to count their invocations (C03/C06)
 
 
 class Record:
@@ -69,6 +70,14 @@ def install():
             captured.append(rec)
         rec.compiled_graph, rec.fn, rec.code = obj, fn, code
         counters["compile"] += 1
+        if callable(fn) and COUNT_INVOCATIONS[0]:
+            inner = fn
+
+            def counted(*a, **k):
+                counters["fn_invocations"] += 1
+                return inner(*a, **k)
+
+            fn = counted
         return (fn, code) if return_code else fn
 
     tracer.optimize = optimize
